@@ -184,6 +184,17 @@ def run_builders(case, tape, emit):
                     out.append(['ok', op[1], bytes(d.as_bytes()).hex()])
                     out.append(['desc', op[1], desc.name,
                                 [str(c.name) for c in desc.controls][:8]])
+                    # the finished definition is annotated by its user (its
+                    # own variants and metadata dicts): later builds of other
+                    # definitions have nothing to do with that
+                    # (only where the dicts are the definition's own: not
+                    # where the caller passed one that it shares)
+                    if 'variants' not in CC.CORPUS[op[1]][1]:
+                        for c in list(desc.controls)[:2]:
+                            d.variants['annot'] = {str(c.name): 1.25}
+                            d.metadata.setdefault(
+                                'specs', {})[str(c.name)] = 220
+                        d.metadata['note'] = 'annotated'
             except BaseException as e:
                 if isinstance(e, (K.KernelFinished, SystemExit)):
                     raise
